@@ -637,7 +637,8 @@ def stepTop (fuel : Nat) (st : TopSt) (tk : Token) : P TopSt :=
            | none => declined)
         else pure st.file.goPackage : P Str)
       pure (reset { st with file := { st.file with consts := st.file.consts ++ [c], goPackage := gp } })
-  | _ => pure (reset st)
+  | .closeCurly | .semicolon => pure (reset st)      -- the record readers may leave their closing token here
+  | _ => fail                                         -- any other stray token is an error (the fix)
 
 /-- ReadFile's top-level loop: `for tr.Next() { … }`, then the tokenizer's error if any (the fix). Go
     returns the partial File together with an error; only the presence of the error is compared then. -/
